@@ -31,8 +31,8 @@ KINDS = ["all", "these", "hasdata", "stat", "momentum", "selectn", "where", "ran
 
 def plan(tier):
     q = tier == "quick"
-    return [dict(unit="w3", n=500 if q else 15000, builds=["py"], case_timeout=120),
-            dict(unit="chain", n=100 if q else 3000, builds=["py"], case_timeout=120)]
+    return [dict(unit="w3", n=500 if q else 6000, builds=["py"], case_timeout=120),
+            dict(unit="chain", n=100 if q else 1200, builds=["py"], case_timeout=120)]
 
 
 def floors(tier):
